@@ -21,6 +21,38 @@ REL_TOL = 1e-9
 MARGIN = Fraction(1, 64)
 
 
+EPS = Fraction(1, 1024)
+
+
+def strengthen(e, positive=True):
+    """push a path-condition formula away from ties: every order atom gets a margin EPS, so that a
+    model of the result drives the float run down the same path (used only to *pick* models)"""
+    k = e.decl().kind() if z3.is_app(e) else None
+    eps = rv(EPS)
+    if k == z3.Z3_OP_NOT:
+        return strengthen(e.arg(0), not positive)
+    if k in (z3.Z3_OP_AND, z3.Z3_OP_OR):
+        parts = [strengthen(c, positive) for c in e.children()]
+        conj = (k == z3.Z3_OP_AND) == positive
+        return z3.And(*parts) if conj else z3.Or(*parts)
+    if k in (z3.Z3_OP_LE, z3.Z3_OP_GE, z3.Z3_OP_LT, z3.Z3_OP_GT):
+        a, b = e.arg(0), e.arg(1)
+        if a.is_int() and b.is_int():
+            return e if positive else z3.Not(e)
+        less = k in (z3.Z3_OP_LE, z3.Z3_OP_LT)
+        if less == positive:
+            return a <= b - eps
+        return a >= b + eps
+    if k == z3.Z3_OP_EQ and z3.is_arith(e.arg(0)):
+        a, b = e.arg(0), e.arg(1)
+        if positive:
+            return e
+        if a.is_int() and b.is_int():
+            return z3.Not(e)
+        return z3.Or(a >= b + eps, a <= b - eps)
+    return e if positive else z3.Not(e)
+
+
 class PathEnd(PathAbort):
     """the harness ends the path early (after an exception in the code under test)"""
 
@@ -169,26 +201,46 @@ class SymCtx(BaseCtx):
                 out.append([name, kind, [str(v.numerator), str(v.denominator)]])
         return out
 
-    def _nice_model(self, neg=None, margin_terms=None):
-        """try to get a counterexample whose real inputs are small dyadic rationals and
-        which violates the property by a margin; fall back to any model"""
+    def _nice_model(self, neg=None, margin_terms=None, strict_only=False):
+        """try to get a counterexample whose real inputs are small dyadic rationals, which lies
+        strictly inside the path (no ties) and violates the property by a margin; fall back to
+        any model (unless strict_only)"""
         E = self.E
         s = E.solver
         tries = []
         dy = []
+        try:
+            strong = [strengthen(c) for c in E.pc]
+        except z3.Z3Exception:
+            strong = None
         for name, kind, term, label in E.inputs:
             if kind == "real":
                 k = z3.Int("dy!" + name)
                 dy.append(z3.And(term * 1024 == z3.ToReal(k), term <= 4096, term >= -4096))
-        if margin_terms is not None:
-            tries.append([margin_terms] + dy)
-            tries.append([margin_terms])
-        if neg is not None:
-            tries.append([neg] + dy)
-            tries.append([neg])
+        if strong is not None:
+            if margin_terms is not None:
+                tries.append([margin_terms] + strong + dy)
+                tries.append([margin_terms] + strong)
+            if neg is not None:
+                tries.append([neg] + strong + dy)
+                tries.append([neg] + strong)
+            else:
+                tries.append(strong + dy)
+                tries.append(strong)
+        if strict_only:
+            tries = tries or [None]
         else:
-            tries.append(dy)
-            tries.append([])
+            if margin_terms is not None:
+                tries.append([margin_terms] + dy)
+                tries.append([margin_terms])
+            if neg is not None:
+                tries.append([neg] + dy)
+                tries.append([neg])
+            else:
+                tries.append(dy)
+                tries.append([])
+        if tries == [None]:
+            return None
         old = E.timeout_ms
         for i, extra in enumerate(tries):
             s.set("timeout", min(old, 3000) if i < len(tries) - 1 else old)
